@@ -45,6 +45,14 @@ type analyzerRec struct {
 	XKeys     []string     `json:"xkeys"`
 	Ans       *analyzerAns `json:"ans"`
 	Unchanged bool         `json:"unchanged"`
+	// After: the same analyzer asked again after it was handed to Flatten (the document it now speaks about, its answers);
+	// validated as a record of its own (tid + "~f"): the index must be complete and sound for the CURRENT document
+	After *analyzerRec `json:"after,omitempty"`
+}
+
+type analyzeArgs struct {
+	ThenFlatten bool `json:"thenFlatten"`
+	Full        bool `json:"full"` // full flattening with RemoveUnused (else Minimal)
 }
 
 func loadSwagger(path string) (*spec.Swagger, error) {
@@ -195,5 +203,17 @@ func opAnalyze(req *Req) (any, map[string]string, error) {
 	ans := collectAnswers(pj, an, sw)
 	after, _ := json.Marshal(sw)
 	rec := &analyzerRec{Tid: req.ID, Doc: doc, XKeys: pj.XKeys(doc), Ans: ans, Unchanged: bytes.Equal(before, after)}
+	var args analyzeArgs
+	if len(req.Args) > 0 {
+		json.Unmarshal(req.Args, &args)
+	}
+	if args.ThenFlatten {
+		ferr := analysis.Flatten(analysis.FlattenOpts{Spec: an, BasePath: req.Files["root"], Minimal: !args.Full, RemoveUnused: args.Full})
+		if ferr == nil {
+			if doc2, _, e2 := projectSwagger(pj, sw); e2 == nil {
+				rec.After = &analyzerRec{Tid: req.ID + "~f", Doc: doc2, XKeys: pj.XKeys(doc2), Ans: collectAnswers(pj, an, sw), Unchanged: true}
+			}
+		}
+	}
 	return rec, names.ToConcrete, nil
 }
